@@ -251,8 +251,11 @@ def tlc_trace(module, trace_path, shards=12, xmx="3g", timeout=1800, cfg=None, m
                     else:
                         tuples.append((None, t))
         if p.returncode != 0 or m is None or "NOTCONSUMED" in out or "Error:" in out:
+            if consumed:
+                log("trace shard %d of %s: rc=%d\n%s" % (i, module, p.returncode, out[-1800:]))
+            else:
+                log("trace shard %d of %s: rc=%d (same kind of failure as above?)" % (i, module, p.returncode))
             consumed = False
-            log("trace shard %d of %s: rc=%d\n%s" % (i, module, p.returncode, out[-2500:]))
         if m:
             trans += int(m.group(1))
             states += int(m.group(2))
